@@ -10,10 +10,32 @@ import (
 func init() { subcommands["c11"] = c11 }
 
 // C11 [(name, raw); ...] [positions]
+// Every case is observed twice: with files made by text.NewFile and placed once, and with files read from disk by
+// text.ReadFile (where the name allows it) that sat in another file set before.  Both must give the same
+// observation (the model knows one kind of file only).
 func c11(t *Term) string {
+	plain := c11Obs(t, 0)
+	if other := c11Obs(t, 3); other != plain {
+		return OT("FilesReadFromDiskOrPlacedTwiceDiffer", plain, other)
+	}
+	return plain
+}
+
+// rows of File.Position for every offset of a small file; of a big one the first and last 200 offsets
+func c11Offsets(n int) []int {
+	var out []int
+	for c := 0; c <= n+1; c++ {
+		if n <= 2000 || c < 200 || c+200 > n+1 {
+			out = append(out, c)
+		}
+	}
+	return out
+}
+
+func c11Obs(t *Term, variant int) string {
 	var files []*text.File
 	for _, ft := range t.Args[0].List() {
-		files = append(files, text.NewFile(string(ft.Args[0].Bytes()), ft.Args[1].Bytes()))
+		files = append(files, loadFile(string(ft.Args[0].Bytes()), ft.Args[1].Bytes(), variant))
 	}
 	var fs *parsley.FileSet
 	if n := len(files); n > 0 && n%2 == 1 {
@@ -49,7 +71,7 @@ func c11(t *Term) string {
 	}
 	for _, f := range files {
 		var row []string
-		for c := 0; c <= f.Len()+1; c++ {
+		for _, c := range c11Offsets(f.Len()) {
 			c := c
 			row = append(row, OL(guard(func() string { return OStr(f.Position(c).String()) }), ON(int(f.Pos(c)))))
 		}
